@@ -74,6 +74,17 @@ def gen_ref(rng, sw):
         ref = ["".join(rng.choice(a) for _ in range(rng.randint(lo, hi))) for _ in range(n)]
         if rng.random() < 0.06:
             ref[rng.randrange(n)] = ""
+    elif sw["style"] == "runs":
+        # run-rich and periodic strings (AAAAGGGG, ABABAB...): deletion variants collide massively
+        n = rng.randint(1, 10)
+        ref = []
+        for _ in range(n):
+            if rng.random() < 0.5:
+                s_ = "".join(rng.choice(a) * rng.randint(1, 5) for _ in range(rng.randint(1, 4)))
+            else:
+                unit = "".join(rng.choice(a) for _ in range(rng.randint(1, 3)))
+                s_ = (unit * 8)[:rng.randint(2, 12)]
+            ref.append(s_[:14])
     elif sw["style"] == "big":
         n = rng.randint(60, 200)
         lo, hi = sw["len_range"]
@@ -91,12 +102,16 @@ def gen_ref(rng, sw):
     if n >= 2 and rng.random() < 0.45:
         for _ in range(rng.randint(1, max(1, n // 3))):
             ref[rng.randrange(n)] = ref[rng.randrange(n)]
+    if rng.random() < 0.04:
+        ref = [ref[0]] * rng.choice([3, 13, 40])  # one sequence many times: "each pair once" under heavy duplication
     return ref
 
 
 def gen_queries(rng, sw, ref, k, mode):
     a = sw["alphabet"]
     nq = rng.randint(1, 6 if sw["style"] != "long" else 4)
+    if sw.get("many_queries") and sw["style"] in ("short", "big", "runs"):
+        nq = rng.choice([30, 60])
     subs = mode == "hamming" and rng.random() < 0.8
     out = []
     for qi in range(nq):
@@ -132,8 +147,8 @@ def gen_queries(rng, sw, ref, k, mode):
 
 def generate(seed, tier, index=0):
     rng = random.Random(seed)
-    style = rng.choice(["short"] * 8 + ["clonal"] * 7 + ["long"] * 3 + ["big"] * 2)
-    if style in ("short", "big"):
+    style = rng.choice(["short"] * 8 + ["clonal"] * 7 + ["long"] * 3 + ["big"] * 2 + ["runs"] * 2)
+    if style in ("short", "big", "runs"):
         alphabet = "".join(rng.sample(AA, rng.choice([2, 2, 3])))
     else:
         alphabet = "".join(rng.sample(AA, rng.choice([3, 6, 20])))
@@ -144,12 +159,16 @@ def generate(seed, tier, index=0):
         "len_range": rng.choice([[0, 3], [1, 4], [2, 5], [3, 7], [4, 4]]),
         "max_members": rng.choice([4, 10, 30]),
         "db_kinds": rng.choice([["symdel"], ["lookup"], ["symdel", "lookup"], ["symdel", "lookup"]]),
+        "many_queries": rng.random() < 0.08,
         "faults": ([f for f in ("callback_raise", "async_interrupt") if rng.random() < 0.7] or ["async_interrupt"]) if faults_on else [],
         "n_ops": rng.randint(3, 14),
         "p_hamming": rng.choice([0.0, 0.2, 0.5]),
         "p_progress": rng.choice([0.0, 0.15]),
         "max_slots": rng.choice([1, 2, 3]),
     }
+    if sw["db_kinds"] == ["symdel"] and style in ("short", "clonal") and rng.random() < 0.15:
+        # SymdelDB is alphabet-free (LookupDB is not): symbols that real CDR3 columns contain
+        sw["alphabet"] = alphabet = alphabet + rng.choice(["X", "*", "_", "a", "X*"])
     ops = []
     slots = {}  # slot -> dict(kind, ref, k)
     lookups = []  # indices of earlier lookup ops
@@ -159,7 +178,8 @@ def generate(seed, tier, index=0):
         ref = gen_ref(rng, sw)
         k = rng.choice([1, 1, 2, 2, 3] if style != "long" else [1, 2, 2]) if kind == "symdel" else None
         slots[slot] = {"kind": kind, "ref": ref, "k": k}
-        ops.append({"op": "build", "slot": slot, "kind": kind, "ref": ref, "k": k})
+        ops.append({"op": "build", "slot": slot, "kind": kind, "ref": ref, "k": k,
+                    "container": rng.choice(["list", "list", "list", "ndarray", "tuple"])})
 
     def lookup_args(slot):
         d = slots[slot]
@@ -169,9 +189,15 @@ def generate(seed, tier, index=0):
             q = gen_queries(rng, sw, d["ref"], k, mode)
         else:
             q = gen_queries(rng, sw, d["ref"], 2, mode)
-            k = 2 if (max(len(s) for s in q) <= 5 and rng.random() < 0.4) else 1
+            mx = max(len(s) for s in q)
+            k = 2 if ((mx <= 5 and rng.random() < 0.4) or (mx <= 10 and len(q) <= 3 and rng.random() < 0.06)) else 1
+        alias = False
+        if rng.random() < 0.05 and (d["kind"] == "symdel" or max(len(s) for s in d["ref"]) <= 14):
+            q, alias = list(d["ref"]), True  # the queries ARE the reference (same content; same object when 'alias')
+            if d["kind"] == "lookup":
+                k = 1
         return {"slot": slot, "queries": q, "mode": mode, "k": k, "progress": rng.random() < sw["p_progress"],
-                "container": rng.choice(["list", "list", "list", "ndarray"])}
+                "container": rng.choice(["list", "list", "list", "ndarray", "tuple"]), "alias_ref": alias and rng.random() < 0.5}
 
     new_build(0)
     while len(ops) < sw["n_ops"]:
@@ -211,7 +237,8 @@ def generate(seed, tier, index=0):
             a = lookup_args(s)
             k = d["k"] if d["kind"] == "symdel" else a["k"]
             ops.append({"op": "oneshot", "fn": rng.choice(["symdel", "nearest_neighbor"]), "slot": s, "queries": a["queries"],
-                        "mode": a["mode"], "k": k, "progress": a["progress"]})
+                        "mode": a["mode"], "k": k, "progress": a["progress"], "container": a["container"],
+                        "ref_container": rng.choice(["list", "list", "ndarray", "tuple"]), "alias_ref": a.get("alias_ref", False)})
         elif r < 0.62 and sw["faults"]:
             s = rng.choice(live)
             a = lookup_args(s)
@@ -220,7 +247,8 @@ def generate(seed, tier, index=0):
                 a["mode"] = "default"
                 fault = {"kind": fk, "fail_at": rng.choice([1, 1, 2, 3, 5, 8, 20])}
             else:
-                fault = {"kind": fk, "k": int(math.exp(rng.uniform(0, math.log(5000))))}
+                fault = {"kind": fk, "k": int(math.exp(rng.uniform(0, math.log(60000 if style in ("big", "long") else 5000))))}
+            lookups.append(len(ops))  # the same queries may be re-issued later, unfaulted ('repeat' drops the fault)
             ops.append(dict(a, op="faulty_lookup", fault=fault))
         else:
             s = rng.choice(live)
@@ -287,6 +315,8 @@ def _container(x, kind):
         import numpy as np
 
         return np.array(x)
+    if kind == "tuple":
+        return tuple(x)
     return list(x)
 
 
@@ -311,11 +341,12 @@ def execute(trace, ctx=None):
         slot = op.get("slot")
         if kind == "build":
             ref = list(op["ref"])
+            refarg = _container(ref, op.get("container", "list"))
             try:
                 if op["kind"] == "symdel":
-                    obj = nn.SymdelDB(ref, op["k"])
+                    obj = nn.SymdelDB(refarg, op["k"])
                 else:
-                    obj = nn.LookupDB(ref)
+                    obj = nn.LookupDB(refarg)
             except HarnessError:
                 raise
             except Exception as e:
@@ -323,7 +354,8 @@ def execute(trace, ctx=None):
                              "detail": "%s(%r) raised %s: %s" % (op["kind"], ref, type(e).__name__, e)}
                 break
             gen_id += 1
-            objs[slot] = {"obj": obj, "kind": op["kind"], "ref": ref, "k": op["k"], "lookups": 0, "faulted": False, "gen": gen_id}
+            objs[slot] = {"obj": obj, "kind": op["kind"], "ref": ref, "refarg": refarg, "k": op["k"], "lookups": 0, "faulted": False,
+                          "gen": gen_id}
             stats["builds"] += 1
             stats["build_" + op["kind"]] += 1
             if len(objs) >= 2:
@@ -359,10 +391,15 @@ def execute(trace, ctx=None):
             qarg = _container(queries, op.get("container", "list"))
             if kind == "oneshot":
                 fn = getattr(nn, op["fn"])
+                rarg = _container(o["ref"], op.get("ref_container", "list"))
+                if op.get("alias_ref") and queries == o["ref"]:
+                    qarg = rarg  # one object on both sides
                 kw = dict(max_edits=k, custom_distance=cd, seqs2=qarg)
                 if op["fn"] == "symdel":
                     kw["progress"] = bool(op.get("progress"))
-                return fn(list(o["ref"]), **kw)
+                return fn(rarg, **kw)
+            if op.get("alias_ref") and queries == o["ref"]:
+                qarg = o["refarg"]  # the very list the database was built from
             if o["kind"] == "symdel":
                 return o["obj"].lookup(qarg, custom_distance=cd, progress=bool(op.get("progress")))
             return o["obj"].lookup(qarg, max_edits=k, custom_distance=cd, progress=bool(op.get("progress")))
